@@ -58,7 +58,7 @@ def same(a, b):
     return a.shape == b.shape and bool(np.all(a == b))
 
 
-def one_case(cid, pkey, rng):
+def one_case(cid, pkey, rng, many=False):
     import importlib
     cls_name, npar = PROTOS[pkey]
     cls = getattr(importlib.import_module("pybrops.breed.prot.mate." + cls_name), cls_name)
@@ -72,18 +72,25 @@ def one_case(cid, pkey, rng):
     xoprob = [{0: 0.0, 1: rng.choice([0.5, 0.5, 0.1, 0.9]), 2: 1.0}[c] for c in xcls]
     pg = make_parents(ntaxa, nvrnt, xoprob, rng)
     ncross = rng.choice([1, 1, 2, 3, 4])
-    xconfig = np.array([[rng.randrange(ntaxa) for _ in range(npar)] for _ in range(ncross)], dtype="int64")
+    xdtype = "int64"
+    if many:
+        # many crosses (more than a signed / unsigned byte can count) named in a NARROW index dtype: the internal index arrays
+        # of the protocol (intermediate hybrids, matings, progeny) must not inherit a width that is too small for them
+        xdtype = many; ncross = {"int8": rng.choice([130, 150]), "uint8": rng.choice([260, 300]), "int16": 150}[xdtype]
+        nvrnt = min(nvrnt, 3); xcls = xcls[:nvrnt]; xoprob = xoprob[:nvrnt]
+        ntaxa = 60; pg = make_parents(ntaxa, nvrnt, xoprob, rng)        # many taxa: two crosses rarely share a parent
+    xconfig = np.array([[rng.randrange(ntaxa) for _ in range(npar)] for _ in range(ncross)], dtype=xdtype)
     if rng.random() < 0.25:    # repeated parents / selfs inside a cross
         xconfig[0, :] = xconfig[0, 0]
-    if rng.random() < 0.5:
-        nm = rng.choice([1, 2, 3]); nmv = [nm] * ncross; nm_arg = nm
+    if many or rng.random() < 0.5:
+        nm = rng.choice([1, 2, 3]) if not many else 1; nmv = [nm] * ncross; nm_arg = nm
     else:
         nmv = [rng.choice([1, 2, 3]) for _ in range(ncross)]; nm_arg = np.array(nmv, dtype="int64")
-    if rng.random() < 0.5:
-        npg = rng.choice([1, 2, 3]); npv = [npg] * ncross; np_arg = npg
+    if many or rng.random() < 0.5:
+        npg = rng.choice([1, 2, 3]) if not many else 1; npv = [npg] * ncross; np_arg = npg
     else:
         npv = [rng.choice([1, 2, 3, 4]) for _ in range(ncross)]; np_arg = np.array(npv, dtype="int64")
-    nself = rng.choice([0, 0, 1, 2, 3])
+    nself = rng.choice([0, 0, 1, 2, 3]) if not many else rng.choice([0, 0, 1])
     pc0 = rng.choice([0, 0, 5, 1234]); fc0 = rng.choice([0, 0, 3, 77])
     gen = np.random.default_rng(rng.randrange(2 ** 32)) if rng.random() < 0.5 else np.random.RandomState(rng.randrange(2 ** 32))
     prot = cls(progeny_counter=pc0, family_counter=fc0, rng=gen)
@@ -111,7 +118,7 @@ def one_case(cid, pkey, rng):
     xids = xconfig.tolist()                     # the designated taxa (what TLC validates against)
     if rng.random() < 0.25:
         # some parents are named by from-the-end indices (numpy meaning: -1 is the last taxon)
-        xconfig = np.array([[v - ntaxa if rng.random() < 0.5 else v for v in row] for row in xids], dtype="int64")
+        xconfig = np.array([[v - ntaxa if rng.random() < 0.5 else v for v in row] for row in xids], dtype="int64" if xdtype == "uint8" else xdtype)
     xarg0 = xconfig.copy()
     before = snapshot(pg)
     c = {"id": cid, "kind": "call", "proto": pkey, "xconfig": xids, "nm": nmv, "np": npv, "nself": nself, "xo": xcls,
@@ -248,6 +255,8 @@ def run(ctx):
     keys = list(PROTOS)
     for t in range(n):
         allc.append(one_case(t + 1, keys[t % len(keys)], rng))
+    for t in range(21 if thorough else 14):
+        allc.append(one_case(len(allc) + 1, keys[t % len(keys)], rng, many=["int8", "uint8", "int16"][(t // len(keys)) % 3]))
     bulk = [bulk_case(len(allc) + 1 + t, keys[t % len(keys)], rng) for t in range(28 if thorough else 14)]
     helpers = [helper_case(len(allc) + len(bulk) + 1 + t, rng, t) for t in range(192 if thorough else 64)]
     verd = cases.validate(ctx, "Mating_Trace", "Mating_Trace.cfg", allc + bulk + helpers, "Mating_Trace", chunk=120, procs=14)
